@@ -11,7 +11,7 @@ open BM
 variable {V : Type}
 
 theorem len_eq' (c : Codec V) (d : Bits) : len c d = (items c d).length := by
-  simp [len, items, chunks_len, w_eq_L c hu]
+  simp [len, items, chunks_len]
 
 theorem mapM_cons_ok_inv {α β} (f : α → Except Err β) (a : α) (l : List α) (rs : List β)
     (h : (a :: l).mapM f = .ok rs) : ∃ r rs', f a = .ok r ∧ l.mapM f = .ok rs' ∧ rs = r :: rs' := by
